@@ -398,6 +398,8 @@ def finish(ctx, level="proof"):
     os.makedirs(os.path.join(VERIF, "replay"), exist_ok=True)
     cov = dict(ctx.coverage)
     cov.setdefault("samples", [])
+    if not cov["samples"] and cov.get("theorems"):
+        cov["samples"] = [{"obligation": t} for t in cov["theorems"][:3]]
     if "exhaustive" in cov and not isinstance(cov["exhaustive"], bool):   # schema: boolean
         detail = cov.pop("exhaustive")
         if detail:
